@@ -11,6 +11,32 @@ ASSUMPTIONS = [
 ]
 
 
+def region_query(rng, boxes):
+    """getBase(Region) query relative to one of the boxes of the push chain: inside it, equal to it, containing it, or
+    sticking out through exactly ONE face (each of the six) / one edge; then sample points of the query box."""
+    blo, bhi = rng.choice(boxes[1:]) if len(boxes) > 1 else boxes[0]
+    kind = rng.choice(["inside", "equal", "contain", "face", "face", "face", "face", "edge"])
+    lo, hi = list(blo), list(bhi)
+    if kind == "inside":
+        lo, hi = [list(t) for t in gen.sub_box(rng, blo, bhi, shrink=(0.2, 0.9))]
+    elif kind == "contain":
+        for i in range(3):
+            lo[i] -= rng.uniform(0.1, 1.0); hi[i] += rng.uniform(0.1, 1.0)
+    elif kind in ("face", "edge"):
+        lo, hi = [list(t) for t in gen.sub_box(rng, blo, bhi, shrink=(0.3, 0.9))]
+        for ax in rng.sample(range(3), 1 if kind == "face" else 2):
+            w = max(bhi[ax] - blo[ax], 0.25)
+            if rng.random() < 0.5:
+                hi[ax] = bhi[ax] + rng.uniform(0.25, 1.5) * w      # lower bound stays inside, upper leaves
+            else:
+                lo[ax] = blo[ax] - rng.uniform(0.25, 1.5) * w
+    lo = [gen.f32(v) for v in lo]; hi = [gen.f32(v) for v in hi]
+    pts = [gen.rand_point(rng, tuple(lo), tuple(hi)) for _ in range(4)]
+    pts += [tuple(rng.choice([lo[i], hi[i]]) for i in range(3)) for _ in range(3)]
+    pts += [tuple(hi), tuple(lo)]
+    return "baser %s %s %d %s" % (gen.pt_hex(tuple(lo)), gen.pt_hex(tuple(hi)), len(pts), " ".join(gen.pt_hex(q) for q in pts))
+
+
 def gen_cases(rng, n, tier):
     lines, meta = [], []
     for k in range(n):
@@ -51,6 +77,8 @@ def gen_cases(rng, n, tier):
             lines.append("val %s" % gen.pt_hex(c))
             if rng.random() < 0.5:
                 lines.append("base %s" % gen.pt_hex(gen.rand_point(rng, (-4, -4, -4), (4, 4, 4))))
+            if rng.random() < 0.6:
+                lines.append(region_query(rng, boxes))
         if rng.random() < 0.7:
             p = gen.rand_point(rng, *boxes[-1], lattice=0.6)
             lines.append("ppush %s" % gen.pt_hex(p))
@@ -58,6 +86,7 @@ def gen_cases(rng, n, tier):
             nsteps += 1
             for _ in range(2):
                 lines.append("base %s" % gen.pt_hex(gen.rand_point(rng, (-4, -4, -4), (4, 4, 4))))
+            lines.append(region_query(rng, boxes))
             lines.append("pop")
         # walk back out, re-checking the outer levels (scratch reuse / spares recycling)
         while len(boxes) > 1:
@@ -119,6 +148,7 @@ def run(rep, tier, seed, replay=None):
     stats = {"val": 0, "val_nan_skipped": 0, "base": 0, "pushes_interval": 0, "pushes_point": 0,
              "pushes_changed": 0, "tapes_shortened_to_leaf": 0}
     oracle_fail = {}
+    quirk_fail = {}
     case = None
     for ln in out_lines:
         w = ln.split()
@@ -132,13 +162,29 @@ def run(rep, tier, seed, replay=None):
                 continue
             stats["val"] += 1
             if w[4] != w[5]:
-                oracle_fail.setdefault(case, []).append(ln)
+                if len(w) > 9 and w[8] == "q" and w[9] == "1":
+                    quirk_fail.setdefault(case, []).append(ln)
+                else:
+                    oracle_fail.setdefault(case, []).append(ln)
         elif w[0] == "base-at":
             if w[-1] == "1":
                 continue
             stats["base"] += 1
             if w[8] != w[9]:
-                oracle_fail.setdefault(case, []).append(ln)
+                if "q" in w and w[w.index("q") + 1] == "1":
+                    quirk_fail.setdefault(case, []).append(ln)
+                else:
+                    oracle_fail.setdefault(case, []).append(ln)
+        elif w[0] == "base-region":
+            n = int(w[w.index("pts") + 1])
+            k0 = w.index("pts") + 2
+            for j in range(n):
+                via, base, nan = w[k0 + 3 * j: k0 + 3 * j + 3]
+                if nan == "1":
+                    continue
+                stats["base_region_pts"] = stats.get("base_region_pts", 0) + 1
+                if via != base:
+                    oracle_fail.setdefault(case, []).append("getBase(region) tape disagrees at sample %d: %s" % (j, " ".join(w[:12])))
         elif w[0] == "ipush":
             stats["pushes_interval"] += 1
             if w[-1] == "0":
@@ -149,6 +195,12 @@ def run(rep, tier, seed, replay=None):
                 stats["pushes_changed"] += 1
         elif w[0] == "pushed" and w[4] == "0":
             stats["tapes_shortened_to_leaf"] += 1
+    for case, fails in quirk_fail.items():
+        rep.violation("specialised tape disagrees with the full expression at a point where the base evaluation hits a "
+                      "recorded Eigen kernel quirk: %s" % fails[0],
+                      {"kind": "oracle", "case": case, "program": in_cases.get(case), "observed": fails[:5],
+                       "how": "write program lines to a file and run .build/plain/harness/tapepush <file>"},
+                      key="C05:eigen-point-kernel-quirk-at-overflow")
     for case, fails in oracle_fail.items():
         rep.violation("specialised tape disagrees with the full expression: %s" % fails[0],
                       {"kind": "oracle", "case": case, "program": in_cases.get(case), "observed": fails[:5],
